@@ -26,7 +26,7 @@ ACCESS = ["fwd", "rev", "alt", "rand", "twice"]
 
 def model_checking(ctx):
     vlib.mc_check(ctx, "MC_Store", "MC_Store_neg.cfg", expect_violation="GetReturnsDoc", timeout=300, workers=4)
-    r = vlib.mc_check(ctx, "MC_Store", "MC_Store.cfg", coverage=True, timeout=600, workers=6)
+    r = vlib.mc_check(ctx, "MC_Store", "MC_Store_q.cfg" if ctx.quick else "MC_Store.cfg", coverage=True, timeout=600, workers=6)
     zero = r.coverage_zero_actions()
     if zero:
         raise vlib.ToolError(f"MC_Store: actions never taken: {zero}")
@@ -48,9 +48,13 @@ def pad_for(size):
 
 def concretise(c, i, rng):
     segs = [[{"pad": pad_for(s)} for s in seg["sizes"]] for seg in c["segs"]]
-    return {"id": i, "cfg": {"blocksize": c["blocksize"], "comp": ["none", "none", "lz4"][i % 3], "thread": i % 2 == 0, "cache": c["cache"]},
+    comp = ["none", "none", "lz4"][i % 3]
+    if c.get("switch_codec"):
+        comp = ["lz4", "none"][i % 2]          # the merged store is written with the other compressor
+    extra = {"merge_comp": "none" if comp == "lz4" else "lz4"} if c.get("switch_codec") else {}
+    return extra | {"id": i, "cfg": {"blocksize": c["blocksize"], "comp": comp, "thread": i % 2 == 0, "cache": c["cache"]},
             "segs": segs, "deletes": sorted(c["deletes"]), "merge": c["merge"], "access": ACCESS[i % len(ACCESS)], "seed": rng.randrange(1 << 30),
-            "gen": {k: c[k] for k in ("k", "nb", "tail", "big", "shape", "expect_stack", "merged_blocks")} | {"blocks": [s["blocks"] for s in c["segs"]], "layers": [s["layers"] for s in c["segs"]]}}
+            "gen": {k: c[k] for k in ("k", "nb", "tail", "big", "shape", "expect_stack", "merged_blocks", "switch_codec")} | {"blocks": [s["blocks"] for s in c["segs"]], "layers": [s["layers"] for s in c["segs"]]}}
 
 
 def random_case(i, rng, big=False):
@@ -63,7 +67,9 @@ def random_case(i, rng, big=False):
     dels = sorted(set(rng.randrange(1, n + 1) for _ in range(rng.choice([0, 0, 1, 2, n // 3]))))
     if len(dels) == n:
         dels = dels[1:]
-    return {"id": i, "cfg": {"blocksize": rng.choice([1, 64, 300, 4096, 16384]), "comp": rng.choice(["none", "lz4", "lz4"]),
+    comp = rng.choice(["none", "lz4", "lz4"])
+    extra = {"merge_comp": "none" if comp == "lz4" else "lz4"} if rng.random() < 0.35 else {}    # codec changed before the merge
+    return extra | {"id": i, "cfg": {"blocksize": rng.choice([1, 64, 300, 4096, 16384]), "comp": comp,
                              "thread": rng.random() < 0.5, "cache": rng.choice([0, 1, 2, 100])},
             "segs": segs, "deletes": dels, "merge": rng.random() < 0.7, "access": rng.choice(ACCESS), "seed": rng.randrange(1 << 30)}
 
@@ -96,11 +102,39 @@ def describe(unit, k, text):
 
 
 def run_cases(ctx, cases, label, timeout=900, collect=None):
-    cp = ctx.path(f"{label}_cases.ndjson")
-    vlib.write_ndjson(cp, cases)
-    tp = ctx.path(f"{label}_trace.ndjson")
-    vlib.run_bin("store_driver", ["run", "--in", cp, "--out", tp], timeout=timeout, mem_gb=12)
-    ev = _fid.clean(vlib.read_ndjson(tp))
+    # the driver catches panics; an abort of the whole process (e.g. an allocation of a garbage length read
+    # from a corrupt block) is an observation too: it is reported for the case that was running, and the
+    # remaining cases are run in a fresh process
+    ev, todo, attempt = [], list(cases), 0
+    while todo and attempt < 6:
+        attempt += 1
+        cp = ctx.path(f"{label}_cases.{attempt}.ndjson")
+        vlib.write_ndjson(cp, todo)
+        tp = ctx.path(f"{label}_trace.{attempt}.ndjson")
+        p = vlib.run_bin("store_driver", ["run", "--in", cp, "--out", tp], timeout=timeout, mem_gb=12, check=False)
+        part = []
+        for line in open(tp, errors="replace"):
+            try:
+                part.append(json.loads(line))
+            except ValueError:
+                pass
+        if p is not None and p.returncode == 0:
+            ev += part
+            break
+        begun = [e["case"] for e in part if e.get("ev") == "begin"]
+        if p is None or not begun:
+            raise vlib.ToolError(f"store_driver failed before running a case ({'time-out' if p is None else p.returncode})")
+        bad = begun[-1]
+        k = max(i for i, e in enumerate(part) if e.get("ev") == "begin")
+        ev += part[:k]
+        bc = next(c for c in todo if c["id"] == bad)
+        crash = ctx.path(f"{label}_crash_case_{bad}.ndjson")
+        vlib.write_ndjson(crash, [bc])
+        ctx.violation(f"the process aborted (exit code {p.returncode}) while the doc store of a case was built / merged / read back "
+                      f"(settings {json.dumps(bc['cfg'])}, merge compressor {bc.get('merge_comp', 'unchanged')})",
+                      [crash], (p.stderr or "")[-1500:] + "\nreplay: store_driver run --in <that file> --out trace.ndjson")
+        todo = todo[[c["id"] for c in todo].index(bad) + 1:]
+    ev = _fid.clean([e for e in ev if e.get("ev") != "begin"])
     units = _fid.split_units(ev, lambda e: e.get("ev") == "store")
     stats = {"docs_read": 0}
 
